@@ -77,11 +77,44 @@ def run(ctx):
     reported_cfg = set()
 
     # ---- correspondence: model replay vs implementation (generated lemma per file)
+    n_par_files = 0
+    par_reported = False
     for f in impl["files"]:
         path = os.path.join(ctx.gen, f["file"])
         r = res.get(path)
-        cfg = cfg_by_name[f["config"]]
         obligations += 1
+        if f["kind"] == "par":
+            # ParPure.v replay: the model (point solver = table of the grid points that converge) must predict the
+            # states returned by pure and by par_pure for every chunk size / pool size of this grid
+            n_par_files += 1
+            tags = V.tagged(r["out"]) if r else {}
+            if r and r["rc"] == 0 and tags.get("PARBAD") == [[]] and tags.get("PURE") == [f["observed_pure"]]:
+                discharged += 1
+                continue
+            if par_reported:
+                continue
+            par_reported = True
+            pp = impl.get("par_pure") or {}
+            bad = tags.get("PARBAD", [None])[0]
+            rp = {"broken": "correspondence gen/C11/%s: model_and_implementation_agree (ParPure.v vs PhaseDiagram::pure / par_pure)" % f["file"],
+                  "config": f["config"], "t_min": f["t_min"], "t_min_over_tc": f["t_min_over_tc"], "npoints": f["npoints"],
+                  "grid": f["grid"], "grid_points_that_converge_without_guess": f["converges_without_guess"],
+                  "model_pure_indices": tags.get("PURE", [None])[0], "observed_pure_indices": f["observed_pure"],
+                  "coq_error": V.coq_error(r["out"]) if r else "no result"}
+            if isinstance(bad, list) and bad:
+                k, obs, mdl = bad[0]
+                rp["first_mismatch"] = {"chunksize": k, "par_pure_returned_grid_indices": obs, "model_par_pure_grid_indices": mdl,
+                                        "threads": [c["threads"] for c in f["cases"] if c["chunksize"] == k and c["returned_grid_indices"] == obs][:6]}
+            ff = pp.get("first_failure")
+            if ff:
+                rp["failing"] = ff
+                rp["expected"] = "par_pure returns the same states in the same order as pure (count, T, rho_V, rho_L within %g)" % TOL_PAR
+                V.violation(ctx, "PhaseDiagram::par_pure differs from PhaseDiagram::pure: %s" % json.dumps(ff["case"]), rp, found_input=True)
+            else:
+                V.violation(ctx, "ParPure.v model and PhaseDiagram::pure/par_pure disagree for %s (%s)" % (f["config"], f["file"]), rp,
+                            found_input=False)
+            continue
+        cfg = cfg_by_name[f["config"]]
         n_cases += len(f["cases"])
         if f["kind"] == "exh":
             n_exh += len(f["cases"])
@@ -204,7 +237,7 @@ def run(ctx):
     pp = impl.get("par_pure")
     if pp:
         w = fnum(pp["worst_rel"])
-        if w > TOL_PAR or pp["errors"]:
+        if (w > TOL_PAR or pp["errors"]) and not par_reported:
             V.violation(ctx, "PhaseDiagram::par_pure differs from PhaseDiagram::pure (%s)" %
                         (json.dumps((pp.get("first_failure") or pp["worst_case"] or {}).get("case")) if w > TOL_PAR else pp["errors"][0]),
                         {"broken": "runtime comparison par_pure vs pure (relative tolerance %g on T, rho_V, rho_L; same number and order of states)" % TOL_PAR,
@@ -214,7 +247,7 @@ def run(ctx):
     cov = {
         "obligations": obligations,
         "discharged": discharged,
-        "checker_cmd": "make -C coq (coqc 8.16.1, full .vo) ; coqc coq/gen/C11/<exh|rnd>_<config>_<k>.v",
+        "checker_cmd": "make -C coq (coqc 8.16.1, full .vo) ; coqc coq/gen/C11/<exh|rnd|par>_<config>_<k>.v",
         "trusted_base": [
             "Coq 8.16.1 kernel incl. the VM (vm_compute); native_compute is not used",
             "no axioms: Print Assumptions reports every C11 theorem closed under the global context (checked every run)",
@@ -229,6 +262,7 @@ def run(ctx):
         "library_files": lib["library_files"],
         "axioms_reported": lib["axioms"],
         "generated_files": len(impl["files"]),
+        "par_pure_grids_replayed_by_model": n_par_files,
         "evaluations": n_cases,
         "histories_exhaustive": n_exh,
         "histories_random_pool": n_rnd,
@@ -247,7 +281,8 @@ def run(ctx):
                        "model_vs_implementation": "exact (bit patterns, map contents, counters); responses read through public getters within 4 ulp"},
         "support_search": {"level": "exploration (not counted among obligations)",
                            "thread_stress_runs": stress_runs, "thread_stress_responses": stress_resp,
-                           "par_pure": {k: pp[k] for k in ("runs", "states_compared", "worst_rel", "samples")} if pp else None},
+                           "par_pure": {k: pp[k] for k in ("runs", "states_compared", "grids", "grids_with_failing_points",
+                                                           "failing_grid_points", "worst_rel", "samples")} if pp else None},
         "samples": samples,
         "rule": "exhaustive: every sequence of length <= max_len over the complete request alphabet (Zeroth, First d, Second d, SecondMixed d1 d2, "
                 "Third d; d in DV, DT, DN i) on a fresh State; random: pool histories of 1-50 primitive requests with clone and public getters, "
